@@ -6,16 +6,20 @@ IR statements (tuples):
   ("if", body, orelse|None) ("while", body, orelse|None) ("whiletrue", body)
   ("for", body, orelse|None) ("try", body, handlers, orelse|None, final|None)
   ("with", "S"|"N", body)
+  ("global", init)   only as the first statement: v is a module-level name of its own (`v_<function>`),
+                     bound to 0 at module level when init is true, declared `global` in the function and in
+                     its nested functions
 """
 
 from __future__ import annotations
 
 import itertools
+import re
 
 U = "U"  # the unbound state
 CLOSURE_SITE = 99  # site id of the read inside the nested function `inner`
 
-SIMPLE = ("assign", "assignn", "use", "call", "calli", "pass", "break", "continue", "return", "raise")
+SIMPLE = ("assign", "assignn", "use", "call", "calli", "pass", "break", "continue", "return", "raise", "global")
 
 
 # ----------------------------------------------------------------- rendering
@@ -40,6 +44,8 @@ def render_block(stmts, indent, out):
             out.append(f"{pad}inner()")
         elif t == "pass":
             out.append(f"{pad}pass")
+        elif t == "global":
+            out.append(f"{pad}global v")
         elif t in ("break", "continue", "return"):
             out.append(f"{pad}{t}")
         elif t == "raise":
@@ -89,16 +95,34 @@ def has_closure(stmts):
     return any(s[0] == "calli" for s in walk(stmts))
 
 
+def global_mode(stmts):
+    """None for a local variable, else the `init` flag of the leading ("global", init)."""
+    return stmts[0][1] if stmts and stmts[0][0] == "global" else None
+
+
+def global_name(name):
+    return f"v_{name}"
+
+
+_V = re.compile(r"\bv\b")
+
+
 def render_function(name, stmts):
     out = [f"def {name}():"]
+    gm = global_mode(stmts)
     if has_closure(stmts):
         # a nested function reading v; ("calli",) statements call it
         out += ["    def inner():", f"        site(v, {CLOSURE_SITE})"]
     for st in walk(stmts):
         if st[0] == "assignn":
-            # ("assignn", k): `v = k` done by a nested function through `nonlocal v`
-            out += [f"    def setv{st[1]}():", "        nonlocal v", f"        v = {st[1]}"]
+            # ("assignn", k): `v = k` done by a nested function through `nonlocal v` (`global v` in global mode)
+            out += [f"    def setv{st[1]}():", "        global v" if gm is not None else "        nonlocal v", f"        v = {st[1]}"]
     render_block(stmts, 1, out)
+    if gm is not None:
+        # the variable is a module-level name private to this function
+        out = [_V.sub(global_name(name), l) for l in out]
+        if gm:
+            out.insert(0, f"{global_name(name)} = 0")
     return out
 
 
@@ -182,10 +206,11 @@ class Analysis:
              exit after any iteration.
     """
 
-    def __init__(self, liberal):
+    def __init__(self, liberal, all_defs=()):
         self.liberal = liberal
         self.uses = {}
         self.reached_defs = set()
+        self.all_defs = set(all_defs)
 
     def block(self, stmts, S, trace=None):
         """Run a block from state-set S.  trace (a set) collects every state visited."""
@@ -228,6 +253,14 @@ class Analysis:
                 r.nexc = {U}
         elif t == "pass":
             r.normal = set(S)
+        elif t == "global":
+            # module-level name: bound to 0 at import (or unbound); the liberal variant lets any assignment of
+            # the function be visible on entry (the name outlives the call)
+            r.normal = {0} if s[1] else {U}
+            if s[1]:
+                self.reached_defs.add(0)
+            if self.liberal:
+                r.normal |= self.all_defs
         elif t == "break":
             r.brk = set(S)
         elif t == "continue":
@@ -324,12 +357,13 @@ class Analysis:
 
 
 def analyse(stmts, liberal, want_defs=False):
-    a = Analysis(liberal)
+    all_defs = {s[1] for s in walk(stmts) if s[0] in ("assign", "assignn")}
+    a = Analysis(liberal, all_defs)
     a.block(stmts, {U}, set() if liberal else None)
     if liberal and CLOSURE_SITE in a.uses:
         # a closure variable is looked up flow-insensitively: any definition of the enclosing
         # function (or none yet) may be visible when the nested function runs
-        a.uses[CLOSURE_SITE] |= {s[1] for s in walk(stmts) if s[0] in ("assign", "assignn")} | {U}
+        a.uses[CLOSURE_SITE] |= all_defs | ({U} if not global_mode(stmts) else set())
     if want_defs:
         return a.uses, a.reached_defs
     return a.uses
@@ -359,8 +393,15 @@ def scripts(max_len):
             yield bits
 
 
-def execute(fn, vocab, script, site_lines=None):
-    """Run fn under a script.  Returns {site: set(defs)} including U for UnboundLocalError."""
+def execute(fn, vocab, script, site_lines=None, reset=None):
+    """Run fn under a script.  Returns {site: set(defs)} including U for UnboundLocalError.
+    reset = (namespace, global name, init flag) restores the module-level binding first."""
+    if reset is not None:
+        ns, gname, init = reset
+        if init:
+            ns[gname] = 0
+        else:
+            ns.pop(gname, None)
     vocab._script[:] = list(script)
     vocab._trace[:] = []
     vocab._ticks[0] = 0
@@ -387,12 +428,18 @@ _ENC = {"assign": "v=", "assignn": "nonlocal-v=", "use": "use", "call": "call", 
         "continue": "cont", "pass": "pass"}
 
 
+def _enc_simple(s):
+    if s[0] == "global":
+        return "global-v=0" if s[1] else "global-v"
+    return _ENC[s[0]]
+
+
 def encode(stmts):
     parts = []
     for s in stmts:
         t = s[0]
-        if t in _ENC:
-            parts.append(_ENC[t])
+        if t in _ENC or t == "global":
+            parts.append(_enc_simple(s))
         elif t in ("if", "while", "for"):
             parts.append(f"{t}{{{encode(s[1])}}}" + (f"else{{{encode(s[2])}}}" if s[2] is not None else ""))
         elif t == "whiletrue":
@@ -409,35 +456,37 @@ def encode(stmts):
     return ";".join(parts)
 
 
-def _valid(stmts, in_loop=False):
+def _valid(stmts, in_loop=False, top=True):
     """break / continue only inside loops; blocks non-empty."""
     if not stmts:
         return False
     for i, s in enumerate(stmts):
         t = s[0]
+        if t == "global" and not (top and i == 0 and len(stmts) > 1):
+            return False
         if t in ("break", "continue") and not in_loop:
             return False
         if t in ("break", "continue", "return", "raise") and i != len(stmts) - 1:
             return False  # no dead statements
         if t == "if":
-            if not _valid(s[1], in_loop) or (s[2] is not None and not _valid(s[2], in_loop)):
+            if not _valid(s[1], in_loop, False) or (s[2] is not None and not _valid(s[2], in_loop, False)):
                 return False
         elif t in ("while", "for"):
-            if not _valid(s[1], True) or (s[2] is not None and not _valid(s[2], in_loop)):
+            if not _valid(s[1], True, False) or (s[2] is not None and not _valid(s[2], in_loop, False)):
                 return False
         elif t == "whiletrue":
-            if not _valid(s[1], True):
+            if not _valid(s[1], True, False):
                 return False
         elif t == "try":
             blocks = [s[1]] + list(s[2]) + [b for b in (s[3], s[4]) if b is not None]
-            if not all(_valid(b, in_loop) for b in blocks):
+            if not all(_valid(b, in_loop, False) for b in blocks):
                 return False
             if not s[2] and s[4] is None:
                 return False
             if s[3] is not None and not s[2]:
                 return False
         elif t == "with":
-            if not _valid(s[2], in_loop):
+            if not _valid(s[2], in_loop, False):
                 return False
     return True
 
@@ -445,7 +494,7 @@ def _valid(stmts, in_loop=False):
 def nonlocal_ok(stmts):
     """`nonlocal v` needs a binding of v in the enclosing function."""
     kinds = {s[0] for s in walk(stmts)}
-    return "assignn" not in kinds or "assign" in kinds
+    return "assignn" not in kinds or "assign" in kinds or global_mode(stmts) is not None
 
 
 def variants(stmts):
@@ -546,6 +595,8 @@ def signature(stmts):
                 toks.add("CLOSURE")
             elif t == "assignn":
                 toks.add("NONLOCAL")
+            elif t == "global":
+                toks.add("GLOBAL")
             elif t == "if":
                 toks.add("IF")
                 go(s[1])
